@@ -121,6 +121,7 @@ class Evaluator:
         self.lgs, self.m, self.lg = lgs, lgs.m, lg
         self.dom = Domain(lg.values)
         self.trace: set[str] = set()
+        self.stream_problems: set[tuple] = set()
         self.kw_drops: set[tuple] = set()       # (caller location, callee): evaluation keywords (world=...) not passed on
         self._cur: list = []
         self._aci: dict[str, bool] = {}
@@ -185,17 +186,47 @@ class Evaluator:
             if fn.qualname.endswith('TruthFunction.generalize') and fn.module == MODELS:
                 return self._prim_generalize(fn)
             return None
-        src = ast.unparse(fn.node)
-        if fn.node.name == '_unquantify_values' and any(isinstance(n, (ast.Yield, ast.YieldFrom)) for n in ast.walk(fn.node)):
-            need = ['for c in self.constants', 'c >> s', 'value_of(c >> s, **kw)']
-            if all(x in src for x in need) and 'value_of = self.value_of' in src:
-                return lambda env: Stream(self.instance_values)
-            raise Unsupported(f'{self.m.floc(fn)}: generator _unquantify_values not in the recognised form')
-        if fn.node.name == '_unmodal_values' and any(isinstance(n, (ast.Yield, ast.YieldFrom)) for n in ast.walk(fn.node)):
-            need = ['for w2 in self.R[world]', 'value_of(s.lhs, world=w2)']
-            if all(x in src for x in need) and 'value_of = self.value_of' in src:
-                return lambda env: Stream(self.instance_values)
-            raise Unsupported(f'{self.m.floc(fn)}: generator _unmodal_values not in the recognised form')
+        if fn.node.name in ('_unquantify_values', '_unmodal_values') and \
+                any(isinstance(n, (ast.Yield, ast.YieldFrom)) for n in ast.walk(fn.node)):
+            # A generator over the model's constants / accessible worlds.  It is taken to yield the
+            # instance values (the abstract stream); that it really visits every constant / world once,
+            # with the evaluation keywords, is decided by folding it over mocks -- a mismatch is
+            # recorded and reported by C08.R1, it is not hidden.
+            msg = self._fold_stream_generator(fn)
+            if msg:
+                self.stream_problems.add((self.m.floc(fn), msg))
+            return lambda env: Stream(self.instance_values)
+        return None
+
+    def _fold_stream_generator(self, fn):
+        from .minieval import Interp, Obj, Unsupported as MUnsupported
+        it = Interp({}, where=self.m.floc(fn))
+
+        class Const:
+            def __init__(self, n):
+                self.n = n
+
+            def __rshift__(self, s):
+                return ('inst', self.n, s)
+        try:
+            if fn.node.name == '_unquantify_values':
+                mdl = Obj('model', constants=[Const(1), Const(2)])
+                mdl.value_of = lambda s, **kw: (s, tuple(sorted(kw.items())))
+                r = it.generate(fn.node, [mdl, 'S'], dict(world=4))
+                want = [(('inst', 1, 'S'), (('world', 4),)), (('inst', 2, 'S'), (('world', 4),))]
+                what = 'the value of every constant instance once, with the evaluation keywords'
+            else:
+                mdl = Obj('model', R={0: [5, 6], 5: [7]})
+                mdl.value_of = lambda s, **kw: (s, tuple(sorted(kw.items())))
+                r = it.generate(fn.node, [mdl, Obj('s', lhs='A')], dict(world=0))
+                want = [('A', (('world', 5),)), ('A', (('world', 6),))]
+                what = "the operand's value at every world accessible from the given world"
+        except MUnsupported as e:
+            raise Unsupported(str(e))
+        except Exception as e:
+            return f'raises {type(e).__name__}: {e}'
+        if r != want:
+            return f'does not yield {what}: {r!r}'
         return None
 
     def _prim_generalize(self, fn):
@@ -653,6 +684,7 @@ class Semantics:
                         self.gen[o][S] = None
         self.consulted = sorted(self.ev.trace)
         self.kw_drops = sorted(self.ev.kw_drops)
+        self.stream_problems = sorted(self.ev.stream_problems)
 
     def op(self, name, *args):
         return self.tables[name][tuple(args)]
